@@ -316,6 +316,8 @@ class Interpreter(BaseInterpreter[TContext, TEvent]):
         for actor in list(self._actors.values()):
             await actor.stop()
         self._actors.clear()
+        # 🌐 A stopped actor must not stay addressable by its systemId.
+        self._unregister_from_system()
 
         # ❌ Cancel all background tasks (timers, services) owned by this interpreter.
         await self.task_manager.cancel_all()
